@@ -38,8 +38,13 @@ func (s *State) cellOf(o *Obj) *Cell {
 	return s.init[o]
 }
 
-// Decided returns the value of atom t under the guard.
+// Decided returns the value of the Bool term t under the guard (three-valued:
+// propositional connectives are evaluated over the atoms the guard decides).
 func (s *State) Decided(t *sym.Term) (bool, bool) {
+	return s.decided(t, 0)
+}
+
+func (s *State) decided(t *sym.Term, depth int) (bool, bool) {
 	neg := false
 	for t.Op == "not" {
 		t = t.Args[0]
@@ -53,6 +58,21 @@ func (s *State) Decided(t *sym.Term) (bool, bool) {
 			return s.Guard[i].Val != neg, true
 		}
 	}
+	if depth < 12 && t.Op == "ite" && t.Sort == sym.Bool {
+		if c, ok := s.decided(t.Args[0], depth+1); ok {
+			if c {
+				v, ok := s.decided(t.Args[1], depth+1)
+				return v != neg, ok
+			}
+			v, ok := s.decided(t.Args[2], depth+1)
+			return v != neg, ok
+		}
+		a, oka := s.decided(t.Args[1], depth+1)
+		b, okb := s.decided(t.Args[2], depth+1)
+		if oka && okb && a == b {
+			return a != neg, true
+		}
+	}
 	return false, false
 }
 
@@ -62,6 +82,25 @@ func (s *State) pushLit(t *sym.Term, val bool, pos string) {
 		val = !val
 	}
 	s.Guard = append(s.Guard, Lit{t, val, pos})
+	// a literal that is a conjunction decides its conjuncts as well
+	if t.Op == "ite" && t.Sort == sym.Bool && len(s.Guard) < 4096 {
+		c, a, b := t.Args[0], t.Args[1], t.Args[2]
+		isC := func(x *sym.Term, v bool) bool { return x.IsConst() && (x.C.Sign() != 0) == v }
+		switch {
+		case isC(a, false) && val: // !c && b
+			s.pushLit(c, false, pos)
+			s.pushLit(b, true, pos)
+		case isC(a, true) && !val: // !(c || b)
+			s.pushLit(c, false, pos)
+			s.pushLit(b, false, pos)
+		case isC(b, false) && val: // c && a
+			s.pushLit(c, true, pos)
+			s.pushLit(a, true, pos)
+		case isC(b, true) && !val: // !(!c || a)
+			s.pushLit(c, true, pos)
+			s.pushLit(a, false, pos)
+		}
+	}
 }
 
 // Simplify rewrites ite-nodes whose condition is decided by the guard.
@@ -454,7 +493,7 @@ func (ex *Exec) opaqueElem(a *OpaqueArr, idx *sym.Term) Val {
 		return sym.Fresh(sym.Int, "sel:"+a.Name, a.Taint|idx.Taint)
 	}
 	if a.Content != nil {
-		return sym.WithTaint(sym.App(sym.Int, "byteat", a.Content, idx), a.Taint)
+		return sym.WithTaint(ByteAt(a.Content, idx), a.Taint)
 	}
 	if v, ok := a.elems[idx.ID]; ok {
 		return v
@@ -745,6 +784,16 @@ func MergeVal(c *sym.Term, a, b Val) Val {
 		if y, ok := b.(*SliceVal); ok && x.Base != nil && y.Base != nil && SamePtr(x.Base, y.Base) {
 			return &SliceVal{Base: x.Base, Len: sym.Ite(c, x.Len, y.Len), Cap: sym.Ite(c, x.Cap, y.Cap)}
 		}
+	}
+	// nested choices on the same condition
+	if x, ok := a.(*Choice); ok && x.Cond == c {
+		a = x.A
+	}
+	if y, ok := b.(*Choice); ok && y.Cond == c {
+		b = y.B
+	}
+	if valEqual(a, b) {
+		return a
 	}
 	return &Choice{Cond: c, A: a, B: b}
 }
